@@ -229,7 +229,7 @@ func (w *World) note(kind string, kv ...interface{}) {
 		r["c"] = w.symOf(cid)
 		delete(r, "cid")
 	}
-	for _, key := range [...]string{"evp", "sp", "ep"} {
+	for _, key := range [...]string{"evp", "sp", "ep", "rp"} {
 		if p, ok := r[key]; ok {
 			// identity of a resource event / subscription object: small
 			// integers in order of first appearance. The map keeps the
